@@ -169,7 +169,7 @@ GlobalRange == vam.pc # "globals" => \A i \in 1..Len(vam.gd) : vam.gt[i] >= 0 /\
 Terminates == vam.pc # "hung"
 \* resolve_alias ends in a non-alias whenever the chain has an end, and in range always (cyclic chains: the argument)
 AliasResolved == \A i \in 0..(NSeq - 1) : LET r == Resolve(vam.seqs, i) IN
-                    r # HANG => r >= 0 /\ r < NSeq /\ (ChainEnds(vam.seqs, i, NSeq + 1) => ~IsAlias(At(vam.seqs, r)))
+                    r # HANG /\ r >= 0 /\ r < NSeq /\ (ChainEnds(vam.seqs, i, NSeq + 1) => ~IsAlias(At(vam.seqs, r)))
 \* update(a); update(b) = update(a + b) on everything observable, where no random choice / chaining is involved
 AddDts == {0, 1, 3, 5, 13}
 Additive == NoChain(vam) => \A a \in AddDts, b \in AddDts :
